@@ -47,13 +47,14 @@ FamNest ==
             p1 |-> Permit(And(<<Or(<<Or(<<CSS("a")>>), CSS("b")>>), Not(CSS("c"))>>)),     \* (a || b) && !c
             p2 |-> Permit(Or(<<Not(And(<<Or(<<CSS("a")>>), CSS("b")>>))>>)),       \* !(a && b)
             p3 |-> Permit(Or(<<CSS("a"), And(<<Or(<<CSS("b")>>), CSS("c")>>)>>)),  \* a || (b && c)
-            p4 |-> Permit(And(<<Or(<<CSS("p3")>>), Not(CSS("p1"))>>))],            \* permits.p3 && !permits.p1
+            p4 |-> Permit(And(<<Or(<<CSS("p3")>>), Not(CSS("p1"))>>)),            \* permits.p3 && !permits.p1
+            p5 |-> Permit(Or(<<Not(Or(<<Or(<<CSS("a")>>), And(<<Or(<<CSS("b")>>), CSS("c")>>)>>))>>))],  \* !(a || (b && c)): an intersection below a union below a negation
      R |-> [v |-> Rel(<<<<"U","">>, <<"D","p1">>, <<"D","p2">>>>, None)]],
    U |-> << Tup("D","d","a", Id("u")), Tup("D","d","b", SS("G","g","m")), Tup("D","d","c", SS("G","h","m")),
             Tup("G","g","m", Id("u")), Tup("G","g","m", SS("G","h","m")), Tup("G","h","m", Id("u")),
             Tup("D","d","a", SS("G","h","m")), Tup("R","r","v", SS("D","d","p1")), Tup("R","r","v", SS("D","d","p2")) >>,
    Q |-> << Tup("D","d","p1", Id("u")), Tup("D","d","p2", Id("u")), Tup("D","d","p3", Id("u")),
-            Tup("D","d","p4", Id("u")), Tup("R","r","v", Id("u")), Tup("D","d","p3", Id("w")) >>]
+            Tup("D","d","p4", Id("u")), Tup("R","r","v", Id("u")), Tup("D","d","p3", Id("w")), Tup("D","d","p5", Id("u")) >>]
 
 FamPlain ==
   [cfg |-> [n |-> [x \in {} |-> Rel(<<>>, None)]],
@@ -174,6 +175,7 @@ ASSUME Stratified(KBase({}, 1, FALSE, 100))
 Witness == CASE FamName = "rw"    -> {{2, 8}, {1, 3, 4, 5, 6}, {2, 3, 5, 6}}
              [] FamName = "alias" -> {{1, 2, 3, 4}, {1, 2, 5, 6}}
              [] FamName = "rec"   -> {{1, 2, 3}, {1, 3, 6, 9}}
+             [] FamName = "nest"  -> {{2, 3, 4, 6}, {1, 3, 6}, {2, 4, 6}}    \* p5 denied through b && c only; p1 denied through c; b without c
              [] FamName = "diam"  -> {{1, 2, 3, 4, 5, 6}, {1, 4, 5, 6, 8}, {1, 2, 3, 4, 5, 6, 9}}
              [] OTHER -> {}
 Subsets == IF Sample = 0 THEN SUBSET (1..N) ELSE RandomSubset(Sample, SUBSET (1..N)) \cup {{}, 1..N} \cup Witness
